@@ -33,43 +33,43 @@ Proof. intros Hn H. field_simplify_eq; [|lra]. nra. Qed.
 
 (* ------------------------------------------------------------------ unitvec *)
 Lemma unitvec_some thr v u : unitvec_m Rops thr v = Some u ->
-  thr < norm3 Rops v /\ u = vdiv3 Rops v (norm3 Rops v).
+  thr <= norm3 Rops v /\ u = vdiv3 Rops v (norm3 Rops v).
 Proof.
-  unfold unitvec_m. cbn [ltb Rops]. destruct (Rltb thr (norm3 Rops v)) eqn:E; [|discriminate].
-  apply Rltb_true in E. intros H; injection H as <-. split; [exact E|reflexivity].
+  unfold unitvec_m. cbn [leb Rops]. destruct (Rleb thr (norm3 Rops v)) eqn:E; [|discriminate].
+  apply Rleb_true in E. intros H; injection H as <-. split; [exact E|reflexivity].
 Qed.
-Lemma unitvec_none thr v : unitvec_m Rops thr v = None <-> norm3 Rops v <= thr.
+Lemma unitvec_none thr v : unitvec_m Rops thr v = None <-> norm3 Rops v < thr.
 Proof.
-  unfold unitvec_m. cbn [ltb Rops]. destruct (Rltb thr (norm3 Rops v)) eqn:E.
-  - apply Rltb_true in E. split; [discriminate|lra].
-  - apply Rltb_false in E. split; [lra|reflexivity].
+  unfold unitvec_m. cbn [leb Rops]. destruct (Rleb thr (norm3 Rops v)) eqn:E.
+  - apply Rleb_true in E. split; [discriminate|lra].
+  - apply Rleb_false in E. split; [lra|reflexivity].
 Qed.
-Lemma unitvec_defined thr v : thr < norm3 Rops v -> unitvec_m Rops thr v = Some (vdiv3 Rops v (norm3 Rops v)).
-Proof. intros H. unfold unitvec_m. cbn [ltb Rops]. apply Rltb_true in H. rewrite H. reflexivity. Qed.
+Lemma unitvec_defined thr v : thr <= norm3 Rops v -> unitvec_m Rops thr v = Some (vdiv3 Rops v (norm3 Rops v)).
+Proof. intros H. unfold unitvec_m. cbn [leb Rops]. apply Rleb_true in H. rewrite H. reflexivity. Qed.
 
-Lemma unitvec_unit thr v u : 0 <= thr -> unitvec_m Rops thr v = Some u -> normsq3 Rops u = 1.
+Lemma unitvec_unit thr v u : 0 < thr -> unitvec_m Rops thr v = Some u -> normsq3 Rops u = 1.
 Proof.
   intros Ht H. apply unitvec_some in H. destruct H as [Hn ->]. destruct_tuples. nm_simpl.
   apply div_unit3; [lra|]. apply sqrt_sq. lra.
 Qed.
-Lemma unitvec_direction thr v u : 0 <= thr -> unitvec_m Rops thr v = Some u ->
+Lemma unitvec_direction thr v u : 0 < thr -> unitvec_m Rops thr v = Some u ->
   exists k, 0 < k /\ u = vscale3 Rops k v.
 Proof.
   intros Ht H. apply unitvec_some in H. destruct H as [Hn ->]. exists (/ norm3 Rops v). split.
   - apply Rinv_0_lt_compat. lra.
   - destruct_tuples. nm_simpl. tuple_eq ltac:(unfold Rdiv; ring).
 Qed.
-Lemma unitvec_fixed thr v : thr < 1 -> normsq3 Rops v = 1 -> unitvec_m Rops thr v = Some v.
+Lemma unitvec_fixed thr v : thr <= 1 -> normsq3 Rops v = 1 -> unitvec_m Rops thr v = Some v.
 Proof.
   intros Ht H. assert (Hn : norm3 Rops v = 1) by (unfold norm3; cbn [sqrt_ Rops]; apply sqrt_eq_1; exact H).
   rewrite unitvec_defined by lra. rewrite Hn. f_equal. destruct_tuples. nm_simpl. tuple_eq ltac:(field).
 Qed.
-Lemma unitvec_idem thr v u : 0 <= thr < 1 -> unitvec_m Rops thr v = Some u -> unitvec_m Rops thr u = Some u.
+Lemma unitvec_idem thr v u : 0 < thr <= 1 -> unitvec_m Rops thr v = Some u -> unitvec_m Rops thr u = Some u.
 Proof. intros [H0 H1] H. apply unitvec_fixed; [exact H1|]. eapply unitvec_unit; eauto. Qed.
 
 Lemma unitvec_norm_agrees thr v :
   unitvec_norm_m Rops thr v = match unitvec_m Rops thr v with Some u => Some (u, norm3 Rops v) | None => None end.
-Proof. unfold unitvec_norm_m, unitvec_m. destruct (ltb Rops thr (norm3 Rops v)); reflexivity. Qed.
+Proof. unfold unitvec_norm_m, unitvec_m. destruct (leb Rops thr (norm3 Rops v)); reflexivity. Qed.
 
 (* ------------------------------------------------------------------ quaternions.unit *)
 Lemma norm4_nonneg q : 0 <= norm4 Rops q.
@@ -140,7 +140,7 @@ Qed.
 
 Lemma trnorm33_some thr R R' : trnorm33_m Rops thr R = Some R' ->
   let o := col33 R 1 in let a := col33 R 2 in let n := cross3 Rops o a in let p := cross3 Rops a n in
-  thr < norm3 Rops n /\ thr < norm3 Rops p /\ thr < norm3 Rops a /\
+  thr <= norm3 Rops n /\ thr <= norm3 Rops p /\ thr <= norm3 Rops a /\
   R' = mtr33 (vdiv3 Rops n (norm3 Rops n), vdiv3 Rops p (norm3 Rops p), vdiv3 Rops a (norm3 Rops a)).
 Proof.
   unfold trnorm33_m. cbv zeta.
@@ -152,7 +152,7 @@ Proof.
 Qed.
 Lemma trnorm33_defined thr R :
   let o := col33 R 1 in let a := col33 R 2 in let n := cross3 Rops o a in let p := cross3 Rops a n in
-  thr < norm3 Rops n -> thr < norm3 Rops p -> thr < norm3 Rops a ->
+  thr <= norm3 Rops n -> thr <= norm3 Rops p -> thr <= norm3 Rops a ->
   trnorm33_m Rops thr R =
   Some (mtr33 (vdiv3 Rops n (norm3 Rops n), vdiv3 Rops p (norm3 Rops p), vdiv3 Rops a (norm3 Rops a))).
 Proof.
@@ -161,26 +161,26 @@ Proof.
 Qed.
 Lemma trnorm33_none thr R : trnorm33_m Rops thr R = None <->
   let o := col33 R 1 in let a := col33 R 2 in let n := cross3 Rops o a in let p := cross3 Rops a n in
-  norm3 Rops n <= thr \/ norm3 Rops p <= thr \/ norm3 Rops a <= thr.
+  norm3 Rops n < thr \/ norm3 Rops p < thr \/ norm3 Rops a < thr.
 Proof.
   cbv zeta. split.
   - intros H.
-    destruct (Rlt_dec thr (norm3 Rops (cross3 Rops (col33 R 1) (col33 R 2)))) as [H1|H1]; [|left; lra].
-    destruct (Rlt_dec thr (norm3 Rops (cross3 Rops (col33 R 2) (cross3 Rops (col33 R 1) (col33 R 2))))) as [H2|H2]; [|right; left; lra].
-    destruct (Rlt_dec thr (norm3 Rops (col33 R 2))) as [H3|H3]; [|right; right; lra].
+    destruct (Rle_dec thr (norm3 Rops (cross3 Rops (col33 R 1) (col33 R 2)))) as [H1|H1]; [|left; lra].
+    destruct (Rle_dec thr (norm3 Rops (cross3 Rops (col33 R 2) (cross3 Rops (col33 R 1) (col33 R 2))))) as [H2|H2]; [|right; left; lra].
+    destruct (Rle_dec thr (norm3 Rops (col33 R 2))) as [H3|H3]; [|right; right; lra].
     rewrite (trnorm33_defined thr R H1 H2 H3) in H. discriminate.
   - intros H. destruct (trnorm33_m Rops thr R) eqn:E; [|reflexivity].
     apply trnorm33_some in E. cbv zeta in E. lra.
 Qed.
 
-Lemma trnorm33_SO3 thr R R' : 0 <= thr -> trnorm33_m Rops thr R = Some R' -> SO3 R'.
+Lemma trnorm33_SO3 thr R R' : 0 < thr -> trnorm33_m Rops thr R = Some R' -> SO3 R'.
 Proof.
   intros Ht H. apply trnorm33_some in H. cbv zeta in H. destruct H as (H1 & H2 & H3 & ->).
   apply SO3_tr. destruct_tuples. revert H1 H2 H3. nm_simpl. intros H1 H2 H3.
   apply trnorm_cols_SO3; try lra; apply sqrt_sq; lra.
 Qed.
 
-Lemma trnorm33_columns thr R R' : 0 <= thr -> trnorm33_m Rops thr R = Some R' ->
+Lemma trnorm33_columns thr R R' : 0 < thr -> trnorm33_m Rops thr R = Some R' ->
   let o := col33 R 1 in let a := col33 R 2 in
   (exists k, 0 < k /\ col33 R' 2 = vscale3 Rops k a) /\
   (exists k, 0 < k /\ col33 R' 1 =
@@ -200,7 +200,7 @@ Proof.
   - destruct_tuples. nm_simpl. reflexivity.
 Qed.
 
-Lemma trnorm33_fixed thr R : thr < 1 -> SO3 R -> trnorm33_m Rops thr R = Some R.
+Lemma trnorm33_fixed thr R : thr <= 1 -> SO3 R -> trnorm33_m Rops thr R = Some R.
 Proof.
   intros Ht H.
   assert (F : cross3 Rops (col33 R 1) (col33 R 2) = col33 R 0 /\ cross3 Rops (col33 R 2) (col33 R 0) = col33 R 1 /\
@@ -212,7 +212,7 @@ Proof.
   rewrite (unitvec_fixed thr _ Ht N0), (unitvec_fixed thr _ Ht N1), (unitvec_fixed thr _ Ht N2).
   destruct R as [[[[a00 a01] a02] [[a10 a11] a12]] [[a20 a21] a22]]. reflexivity.
 Qed.
-Lemma trnorm33_idem thr R R' : 0 <= thr < 1 -> trnorm33_m Rops thr R = Some R' -> trnorm33_m Rops thr R' = Some R'.
+Lemma trnorm33_idem thr R R' : 0 < thr <= 1 -> trnorm33_m Rops thr R = Some R' -> trnorm33_m Rops thr R' = Some R'.
 Proof. intros [H0 H1] H. apply trnorm33_fixed; [exact H1|]. eapply trnorm33_SO3; eauto. Qed.
 
 (* 4x4 *)
@@ -222,7 +222,7 @@ Proof.
   unfold trnorm44_m. destruct (trnorm33_m Rops thr (t2r3 A)) as [R'|]; [|discriminate].
   intros H; injection H as <-. exists R'. split; reflexivity.
 Qed.
-Lemma trnorm44_SE3 thr A A' : 0 <= thr -> trnorm44_m Rops thr A = Some A' ->
+Lemma trnorm44_SE3 thr A A' : 0 < thr -> trnorm44_m Rops thr A = Some A' ->
   SE3 A' /\ transl3 A' = transl3 A.
 Proof.
   intros Ht H. apply trnorm44_some in H. destruct H as (R' & H & ->). split.
@@ -234,12 +234,12 @@ Proof.
   intros H. apply trnorm44_some in H. destruct H as (R' & H & ->). rewrite H. f_equal.
   destruct_tuples. nm_simpl. reflexivity.
 Qed.
-Lemma trnorm44_fixed thr A : thr < 1 -> SE3 A -> trnorm44_m Rops thr A = Some A.
+Lemma trnorm44_fixed thr A : thr <= 1 -> SE3 A -> trnorm44_m Rops thr A = Some A.
 Proof.
   intros Ht H. unfold trnorm44_m. destruct H as [HR HL]. rewrite (trnorm33_fixed thr _ Ht HR).
   f_equal. symmetry. apply SE3_decompose. split; assumption.
 Qed.
-Lemma trnorm44_idem thr A A' : 0 <= thr < 1 -> trnorm44_m Rops thr A = Some A' -> trnorm44_m Rops thr A' = Some A'.
+Lemma trnorm44_idem thr A A' : 0 < thr <= 1 -> trnorm44_m Rops thr A = Some A' -> trnorm44_m Rops thr A' = Some A'.
 Proof. intros [H0 H1] H. apply trnorm44_fixed; [exact H1|]. eapply trnorm44_SE3; eauto. Qed.
 
 (* ------------------------------------------------------------------ unittwist *)
@@ -549,42 +549,42 @@ Proof. intros Hp. apply angdiff_fixed; [exact Hp|]. apply angdiff_range. exact H
 Lemma norm2_nonneg v : 0 <= norm2 Rops v.
 Proof. unfold norm2. cbn [sqrt_ Rops]. apply sqrt_pos. Qed.
 Lemma unitvec2_some thr v u : unitvec2_m Rops thr v = Some u ->
-  thr < norm2 Rops v /\ u = vdiv2 Rops v (norm2 Rops v).
+  thr <= norm2 Rops v /\ u = vdiv2 Rops v (norm2 Rops v).
 Proof.
-  unfold unitvec2_m. cbn [ltb Rops]. destruct (Rltb thr (norm2 Rops v)) eqn:E; [|discriminate].
-  apply Rltb_true in E. intros H; injection H as <-. split; [exact E|reflexivity].
+  unfold unitvec2_m. cbn [leb Rops]. destruct (Rleb thr (norm2 Rops v)) eqn:E; [|discriminate].
+  apply Rleb_true in E. intros H; injection H as <-. split; [exact E|reflexivity].
 Qed.
-Lemma unitvec2_defined thr v : thr < norm2 Rops v -> unitvec2_m Rops thr v = Some (vdiv2 Rops v (norm2 Rops v)).
-Proof. intros H. unfold unitvec2_m. cbn [ltb Rops]. apply Rltb_true in H. rewrite H. reflexivity. Qed.
-Lemma unitvec2_none thr v : unitvec2_m Rops thr v = None <-> norm2 Rops v <= thr.
+Lemma unitvec2_defined thr v : thr <= norm2 Rops v -> unitvec2_m Rops thr v = Some (vdiv2 Rops v (norm2 Rops v)).
+Proof. intros H. unfold unitvec2_m. cbn [leb Rops]. apply Rleb_true in H. rewrite H. reflexivity. Qed.
+Lemma unitvec2_none thr v : unitvec2_m Rops thr v = None <-> norm2 Rops v < thr.
 Proof.
-  unfold unitvec2_m. cbn [ltb Rops]. destruct (Rltb thr (norm2 Rops v)) eqn:E.
-  - apply Rltb_true in E. split; [discriminate|lra].
-  - apply Rltb_false in E. split; [lra|reflexivity].
+  unfold unitvec2_m. cbn [leb Rops]. destruct (Rleb thr (norm2 Rops v)) eqn:E.
+  - apply Rleb_true in E. split; [discriminate|lra].
+  - apply Rleb_false in E. split; [lra|reflexivity].
 Qed.
 
 Lemma trnorm22_some thr r00 r01 r10 r11 R' : trnorm22_m Rops thr ((r00,r01),(r10,r11)) = Some R' ->
   let n := norm2 Rops (r01,r11) in
-  thr < n /\ R' = ((r11/n, r01/n), (- (r01/n), r11/n)).
+  thr <= n /\ R' = ((r11/n, r01/n), (- (r01/n), r11/n)).
 Proof.
   unfold trnorm22_m. destruct (unitvec2_m Rops thr (r01, r11)) as [[a0 a1]|] eqn:E; [|discriminate].
   apply unitvec2_some in E. destruct E as [Hn E]. cbn [vdiv2 div Rops] in E. injection E as -> ->.
   intros H; injection H as <-. cbv zeta. split; [exact Hn|reflexivity].
 Qed.
 Lemma trnorm22_none thr r00 r01 r10 r11 :
-  trnorm22_m Rops thr ((r00,r01),(r10,r11)) = None <-> norm2 Rops (r01,r11) <= thr.
+  trnorm22_m Rops thr ((r00,r01),(r10,r11)) = None <-> norm2 Rops (r01,r11) < thr.
 Proof.
   rewrite <- unitvec2_none. unfold trnorm22_m.
   destruct (unitvec2_m Rops thr (r01, r11)) as [[a0 a1]|]; split; intros; try discriminate; reflexivity.
 Qed.
-Lemma trnorm22_defined thr r00 r01 r10 r11 : thr < norm2 Rops (r01,r11) ->
+Lemma trnorm22_defined thr r00 r01 r10 r11 : thr <= norm2 Rops (r01,r11) ->
   exists R', trnorm22_m Rops thr ((r00,r01),(r10,r11)) = Some R'.
 Proof.
   intros H. destruct (trnorm22_m Rops thr ((r00,r01),(r10,r11))) eqn:E; [eexists; reflexivity|].
   apply trnorm22_none in E. lra.
 Qed.
 (* projects onto SO(2); the second column of the result is a positive multiple of the second column of the input *)
-Lemma trnorm22_SO2 thr R R' : 0 <= thr -> trnorm22_m Rops thr R = Some R' ->
+Lemma trnorm22_SO2 thr R R' : 0 < thr -> trnorm22_m Rops thr R = Some R' ->
   SO2 R' /\ (exists k, 0 < k /\ (let '((_,b),(_,d)) := R' in (b,d)) = (let '((_,r01),(_,r11)) := R in (k*r01, k*r11))).
 Proof.
   intros Ht H. destruct R as [[r00 r01] [r10 r11]]. apply trnorm22_some in H. cbv zeta in H. destruct H as [Hn ->].
@@ -595,7 +595,7 @@ Proof.
   - unfold SO2. repeat split; nra.
   - exists (/ n). split; [apply Rinv_0_lt_compat; exact Hn0|]. unfold Rdiv. f_equal; ring.
 Qed.
-Lemma trnorm22_fixed thr R : thr < 1 -> SO2 R -> trnorm22_m Rops thr R = Some R.
+Lemma trnorm22_fixed thr R : thr <= 1 -> SO2 R -> trnorm22_m Rops thr R = Some R.
 Proof.
   intros Ht H. destruct R as [[a b] [c d]]. pose proof (SO2_columns _ _ _ _ H) as (Had & Hbc & _).
   unfold SO2 in H. destruct H as (H1 & H2 & H3 & H4).
@@ -604,7 +604,7 @@ Proof.
   unfold trnorm22_m. rewrite unitvec2_defined by lra. rewrite Hn. cbn [vdiv2 div neg Rops]. subst a b.
   apply (f_equal Some). tuple_eq ltac:(field).
 Qed.
-Lemma trnorm22_idem thr R R' : 0 <= thr < 1 -> trnorm22_m Rops thr R = Some R' -> trnorm22_m Rops thr R' = Some R'.
+Lemma trnorm22_idem thr R R' : 0 < thr <= 1 -> trnorm22_m Rops thr R = Some R' -> trnorm22_m Rops thr R' = Some R'.
 Proof. intros [H0 H1] H. apply trnorm22_fixed; [exact H1|]. eapply trnorm22_SO2; eauto. Qed.
 
 Lemma SE2_rt (Rm : M22 R) (t : V2 R) : SO2 Rm -> SE2 (rt2tr2 Rops Rm t).
@@ -617,7 +617,7 @@ Proof.
   unfold trnorm23_m. destruct (trnorm22_m Rops thr (t2r2 A)) as [R'|]; [|discriminate].
   intros H; injection H as <-. exists R'. split; reflexivity.
 Qed.
-Lemma trnorm23_SE2 thr A A' : 0 <= thr -> trnorm23_m Rops thr A = Some A' ->
+Lemma trnorm23_SE2 thr A A' : 0 < thr -> trnorm23_m Rops thr A = Some A' ->
   SE2 A' /\ transl2 A' = transl2 A /\ trnorm22_m Rops thr (t2r2 A) = Some (t2r2 A').
 Proof.
   intros Ht H. apply trnorm23_some in H. destruct H as (R' & H & ->). split; [|split].
@@ -625,10 +625,10 @@ Proof.
   - destruct_tuples. nm_simpl. reflexivity.
   - rewrite H. f_equal. destruct_tuples. nm_simpl. reflexivity.
 Qed.
-Lemma trnorm23_fixed thr A : thr < 1 -> SE2 A -> trnorm23_m Rops thr A = Some A.
+Lemma trnorm23_fixed thr A : thr <= 1 -> SE2 A -> trnorm23_m Rops thr A = Some A.
 Proof.
   intros Ht H. unfold trnorm23_m. destruct H as [HR HL]. rewrite (trnorm22_fixed thr _ Ht HR).
   f_equal. symmetry. apply SE2_decompose. split; assumption.
 Qed.
-Lemma trnorm23_idem thr A A' : 0 <= thr < 1 -> trnorm23_m Rops thr A = Some A' -> trnorm23_m Rops thr A' = Some A'.
+Lemma trnorm23_idem thr A A' : 0 < thr <= 1 -> trnorm23_m Rops thr A = Some A' -> trnorm23_m Rops thr A' = Some A'.
 Proof. intros [H0 H1] H. apply trnorm23_fixed; [exact H1|]. eapply trnorm23_SE2; eauto. Qed.
